@@ -35,7 +35,7 @@ CHECKS = {
         note='Trusted: line:column to offset conversion and starts-with facts in harness/c08.py (re-validated / asserted by PosTrace.tla); programs whose real tree differs from the dictated one are skipped (C03/C04).  The check asks what the statement asks (text occurs there), not that it is the same occurrence.'),
     'C04': dict(
         category='model_checking', design_ref='5 (C04)',
-        technique='TLA+ derivation machine with automatic semicolon insertion (ES5Grammar.tla: virtual semicolons, line-break flags, restricted productions, continuation sets) enumerated by TLC; every sentence replayed into parse() under 15 kinds of line-breaking layout plus its explicit-semicolon twin; near-sentences with one 7.9 rule lifted must be rejected (membership by ES5Accept.tla)',
+        technique='TLA+ model of where the implementation supplies semicolons (AsiImpl.tla: the restricted-production path of Lexer._token and the p_error / auto_semi path) checked by TLC against the virtual semicolons of the derivation (AsiOK) and bound to the code by comparing the positions with the AUTOSEMI tokens the real lexer hands to the parser (drift reported); TLA+ derivation machine with automatic semicolon insertion (ES5Grammar.tla: virtual semicolons, line-break flags, restricted productions, continuation sets) enumerated by TLC; every sentence replayed into parse() under 15 kinds of line-breaking layout plus its explicit-semicolon twin; near-sentences with one 7.9 rule lifted must be rejected (membership by ES5Accept.tla)',
         text='TLC enumerates every program of three ASI themes up to MaxTok tokens with up to MaxNL line breaks and the virtual semicolons 7.9 allows, with the dictated tree (identical to the explicit-semicolon tree by construction); the real parser must build that tree for every line-break layout kind (LF, CR, CRLF, LS, PS, comments before/after/containing the break, line comments) and for the explicit twin, and must reject the near-sentences obtained by lifting the restricted-production, empty-statement, for-header or offending-token rules.',
         note='Bounded (tokens, line breaks, layout kinds as class representatives); the continuation sets Cont(e) are transcribed by hand from the grammar.'),
     'C05': dict(
